@@ -817,3 +817,135 @@ def hedge_replay(r):
         return out
     finally:
         sh.ESSearchWM, sh.ESSearchELL = saved
+
+
+# =============================================================================== the programs regenerated from the source (A.23)
+REQUIRES_SRC = REQUIRES + ["PV.Model.ESSrc", "PV.gen.Src_es"]
+SRC_OK = {"mask": "mask_case_ok_with src_mask", "maskr": "mask_plain_ok_with src_mask", "es": "es_case_ok_with src_gen src_ret",
+          "hedge": "hedge_case_ok_with src_hedge"}
+
+
+def src_generated_ok():
+    """gen/Src_es.v was generated from the current source (not poisoned) and builds"""
+    from vlib import core
+    p = core.COQ / "gen" / "Src_es.v"
+    if not p.exists() or "Definition src_mask " not in p.read_text():
+        return False
+    ok, _ = core.coq_make(["gen/Src_es.vo"])
+    return ok
+
+
+def run_cases_both(name, case_ty, ok_fun, ok_fun_src, cases, shard=400, timeout=900):
+    """Like core.run_cases, but every shard is evaluated twice on the SAME literals: by the hand-written model (ok_fun) and by
+    the program regenerated from the source (ok_fun_src).  Returns (compiled, bad_model, bad_src, log)."""
+    from concurrent.futures import ThreadPoolExecutor
+    from vlib import core
+    tg = [r[3:].replace(".", "/") + ".vo" for r in REQUIRES_SRC if r.startswith("PV.")]
+    okb, logb = core.coq_make(tg)
+    if not okb:
+        return False, [], [], "required modules do not build:\n" + logb[-2000:]
+    shards = [cases[i:i + shard] for i in range(0, len(cases), shard)] or [[]]
+
+    def one(k):
+        body = f"\nDefinition the_cases : list ({case_ty}) := " + core.clist(["\n  " + c for c in shards[k]]) + ".\n"
+        body += f"Eval vm_compute in (bad_indices ({ok_fun}) the_cases).\n"
+        body += f"Eval vm_compute in (bad_indices ({ok_fun_src}) the_cases).\n"
+        ok, out = core.coq_eval(f"{name}_{k}", REQUIRES_SRC, body, timeout=timeout)
+        ev = core.split_evals(out) if ok else []
+        lists = [core.parse_nat_list(e) for e in ev]
+        if not ok or len(lists) != 2 or any(x is None for x in lists):
+            return False, None, None, out
+        return True, lists[0], lists[1], out
+    with ThreadPoolExecutor(max_workers=min(12, len(shards))) as ex:
+        res = list(ex.map(one, range(len(shards))))
+    allok, bm, bs, log = True, [], [], ""
+    for k, (ok, a, b, out) in enumerate(res):
+        if not ok:
+            allok = False
+            log += f"[shard {k}] coqc failed:\n{out[-3000:]}\n"
+        else:
+            bm += [k * shard + i for i in a]
+            bs += [k * shard + i for i in b]
+    return allok, bm, bs, log
+
+
+# --------------------------------------------------------------------------- cases AIMED at the generations loop (search(), A.23)
+def es_direct(seed):
+    """One call of the real ESSearchELL.__call__ on a synthetic state, aimed at the selection statements of the generations loop:
+    the filter and the acquisition function are replaced, inside pybads.search.es_search, by recorders that (a) project onto the box
+    they are HANDED and let a prescribed number of rows survive (whole generations without survivors, populations of one or two,
+    more survivors than lamb) and (b) score the survivors with prescribed values (ties, NaN, a later generation better or worse than
+    the first).  Returns a record in the format of Recorder.es_calls for es_monitor.  Deterministic in `seed` (replay)."""
+    import random
+    import types
+    import logging
+    import pybads.search.es_search as es
+    rng = random.Random(seed)
+    D = rng.choice([1, 2, 2, 3])
+    lamb = rng.choice([1, 2, 3, 5, 8])
+    iters = rng.choice([1, 2, 2, 3, 4])
+    mesh = 2.0 ** rng.choice([-3, -2, -1])
+    lbs = np.array([-2.0 + mesh * rng.randint(0, 3) for _ in range(D)])
+    ubs = lbs + mesh * np.array([rng.randint(4, 24) for _ in range(D)])
+    opts = dict(poll_mesh_multiplier=2.0, es_start=0.25, n_search_iter=iters, search_acq_fcn=("acq_LCB", None), es_beta=1)
+    ost = dict(mesh_size=mesh, search_factor=1.0, search_mesh_size=mesh / 2, tol_mesh=1e-6, lb_search=lbs.copy(), ub_search=ubs.copy())
+    keep_plan = [rng.choice(["all", "all", "none", "one", "two", "half"]) for _ in range(iters)]
+    zmode = [rng.choice(["rand", "rand", "ties", "nan", "better", "worse"]) for _ in range(iters)]
+    c = dict(cls="ESSearchELL", mu=lamb, lamb=lamb, iters=iters, gens=[], lb=None, ub=None, ret=None, exc=None,
+             lb_search=lbs.copy(), ub_search=ubs.copy(), hard_lb=None, hard_ub=None, search_mesh=mesh / 2, direct_seed=seed)
+    o_cc, o_acq = es.contraints_check, es.acq_fcn_lcb
+
+    def cc(U, lb, ub, tol, fl, proj=False, cons=None):
+        U = np.array(U, dtype=float)
+        lb_, ub_ = np.asarray(lb, dtype=float).reshape(-1), np.asarray(ub, dtype=float).reshape(-1)
+        k = len(c["gens"])
+        P = np.maximum(np.minimum(U, ub_), lb_) if proj else U[np.all((U >= lb_) & (U <= ub_), axis=1)]
+        P = np.unique(P, axis=0) if P.shape[0] else P
+        plan = keep_plan[min(k, iters - 1)]
+        n = P.shape[0]
+        m = dict(all=n, none=0, one=min(1, n), two=min(2, n), half=(n + 1) // 2)[plan]
+        idx = sorted(rng.sample(range(n), m)) if n else []
+        out = P[idx] if m else P[:0]
+        c["gens"].append([U, np.array(out), None])
+        c["lb"], c["ub"] = lb_, ub_
+        return out
+
+    def acq(xi, t, gp, sb=None):
+        xi = np.asarray(xi)
+        n = xi.shape[0]
+        k = len(c["gens"]) - 1
+        mode = zmode[min(max(k, 0), iters - 1)]
+        z = np.array([rng.choice([-1.0, 0.0, 0.5, 1.0, 2.0]) + (0.0 if mode == "ties" else rng.random()) for _ in range(n)])
+        if mode == "nan":
+            z = np.where(np.array([rng.random() < 0.6 for _ in range(n)]), np.nan, z)
+        z = z + (-5.0 if mode == "better" else 5.0 if mode == "worse" else 0.0)
+        if c["gens"] and c["gens"][-1][2] is None:
+            c["gens"][-1][2] = np.array(z, dtype=float)
+        return z.reshape(-1, 1), z.copy(), np.ones(n)
+
+    es.contraints_check, es.acq_fcn_lcb = cc, acq
+    st = np.random.get_state()
+    lvl = logging.getLogger("BADS").level
+    logging.getLogger("BADS").setLevel(logging.CRITICAL)
+    try:
+        np.random.seed(seed % (2 ** 31))
+        s = es.ESSearchELL(lamb, lamb, opts)
+        gp = types.SimpleNamespace(X=np.zeros((4, D)), y=np.zeros((4, 1)), temporary_data=dict(poll_scale=np.ones(D)))
+        fl = types.SimpleNamespace(func_count=10)
+        u = (lbs + ubs) / 2
+        import warnings
+        with warnings.catch_warnings():
+            warnings.simplefilter("ignore")
+            r = s(u, lbs, ubs, fl, gp, ost, True, None)
+        if np.asarray(r[0]).size == 0:
+            c["ret"] = "empty"
+        else:
+            c["ret"] = (np.array(r[0], dtype=float).reshape(-1), float(np.asarray(r[1]).reshape(-1)[0]))
+    except Exception as ex:
+        c["exc"] = type(ex).__name__
+        c["exc_msg"] = str(ex)[:120]
+    finally:
+        es.contraints_check, es.acq_fcn_lcb = o_cc, o_acq
+        np.random.set_state(st)
+        logging.getLogger("BADS").setLevel(lvl)
+    return c
